@@ -16,7 +16,7 @@ import (
 
 func vRTLen() int {
 	if vThorough() {
-		return 10
+		return 8
 	}
 	return 6
 }
